@@ -15,6 +15,7 @@ UNITS = {
     "mempool_visitor": {"template": "contracts/mempool_visitor.vrs", "rlimit": 60},
     "generator_len": {"template": "contracts/generator_len.vrs", "rlimit": 30},
     "aggsig": {"template": "contracts/aggsig.vrs", "rlimit": 60},
+    "trusted_lookup": {"template": "contracts/trusted_lookup.vrs", "rlimit": 60},
     "costs": {"template": "contracts/costs.vrs", "rlimit": 30},
     "blob_cache": {"template": "contracts/blob_cache.vrs", "rlimit": 60},
     "bls_cache": {"template": "contracts/bls_cache.vrs", "rlimit": 30},
@@ -271,6 +272,20 @@ PROPS["C19"] = {
         "MempoolVisitor::post_spend and post_process",
         "fast_forward_singleton guard + frame; curry_and_treehash; compute_puzzle_fingerprint framing injectivity",
         "the rewritten solution runs successfully and creates the same coins (CLVM execution)",
+    ],
+}
+
+PROPS["C09"] = {
+    "level": "proof",
+    "technique": "Verus contracts on the real parse_coin_spend and get_puzzle_and_solution_for_coin (extracted verbatim) against a first-match spec over the generator output; native evaluation of fixed generators comparing additions_and_removals with the validated conditions for every memo/hint shape",
+    "level_text": "Deductive proof for every generator output tree and coin: the lookup returns exactly the first spend whose parent id, amount and tree hash of the puzzle reveal match the coin (and fails otherwise), with parse_coin_spend accepting exactly well-formed (parent puzzle amount solution) entries. The additions/hints clause runs CLVM and is decided only on fixed generators (8 memo shapes) by evaluating the real code.",
+    "level_note": "additions_and_removals, get_coinspends_for_trusted_block and SpendBundle::additions execute CLVM programs (run_program) and use generic clvm_traits decoders: no contract within reach; only ground instances are evaluated. tree_hash_cached's contract is proved in unit tree_hash and assumed here.",
+    "components": [V("trusted_lookup"), N("native_trusted_paths_ground", "trusted_paths_ground")],
+    "assumptions": ["tree_hash_cached contract (proved in unit tree_hash)", "clvmr Allocator accessor contracts"],
+    "not_covered": [
+        "additions_and_removals in general (CLVM execution of the generator and puzzles)",
+        "get_coinspends_for_trusted_block(+with_conditions): recovered coin spends rebuild a generator with the same conditions",
+        "SpendBundle::additions",
     ],
 }
 
